@@ -4,6 +4,7 @@ func init() {
 	vRegister("VH_C15_RoundTrip", VH_C15_RoundTrip)
 	vRegister("VH_C15_Refuse", VH_C15_Refuse)
 	vRegister("VH_C15_Reject", VH_C15_Reject)
+	vRegister("VH_C15_RefuseMidMessage", VH_C15_RefuseMidMessage)
 }
 
 // vhExportable builds a stream in an arbitrary state that satisfies the export
@@ -139,9 +140,10 @@ func VH_C15_Refuse() {
 		s.sendBuffer = vBlob("sb", sb)
 	}
 	s.sendEOM = vBool("sendEOM")
+	s.sendPartial = vBool("sendPartial")
 	blob, err := s.ExportCryptoState()
 	mustRefuse := !s.encrypted || !hasKey || !s.finishedSendAAD || !s.finishedRecvAAD ||
-		s.inMessage || s.bytesRead != 0 || rb != 0 || sb != 0 || s.sendEOM
+		s.inMessage || s.bytesRead != 0 || rb != 0 || sb != 0 || s.sendEOM || s.sendPartial
 	if err != nil {
 		vCover("export-refused")
 		vAssert(mustRefuse, "export-refused-only-when-unclean")
@@ -184,5 +186,44 @@ func VH_C15_Reject() {
 		_, ierr := NewStreamWithCryptoState(&vhConn{}, blob)
 		vAssert(ierr != nil, "wrong-version-rejected")
 		vCover("wrong-version")
+	}
+}
+
+// VH_C15_RefuseMidMessage: export is refused while a message is partially sent
+// or partially consumed, whatever the history that led there - including an
+// outbound message whose buffered part has already been flushed as a partial
+// frame (nothing left in the send buffer, end of message not yet signalled).
+//
+//verif:unwind 6
+func VH_C15_RefuseMidMessage() {
+	sc := &vhConn{}
+	s, _ := vhExportable(sc)
+	vAssume(s.encryptCounter < 0xfffffff0)
+	switch vChoice("history", 3) {
+	case 0:
+		// outbound message in progress: the first write was large enough to be flushed
+		s.StartMessage()
+		n := vInt("n")
+		vAssume(n >= 1 && n <= 6000)
+		if s.WriteMessage(vhCtx, vBlob("w", n)) != nil {
+			vAssume(false)
+		}
+		_, err := s.ExportCryptoState()
+		vAssert(err != nil, "export-refused-while-an-outbound-message-is-open")
+		vCover("mid-send")
+	case 1:
+		// complete outbound message: export allowed again after EndMessage + StartMessage
+		s.StartMessage()
+		if s.WriteMessage(vhCtx, vBlob("w", 10)) != nil || s.EndMessage(vhCtx) != nil {
+			vAssume(false)
+		}
+		s.StartMessage()
+		_, err := s.ExportCryptoState()
+		vAssert(err == nil, "export-allowed-at-a-message-boundary")
+		vCover("after-send")
+	case 2:
+		vCover("untouched")
+		_, err := s.ExportCryptoState()
+		vAssert(err == nil, "export-allowed-on-a-clean-stream")
 	}
 }
